@@ -88,6 +88,7 @@ pub fn gen_case(rng: &mut Rng, flavour: Flavour, thorough: bool) -> ModelCase {
     big_every,
     burst: if many { 30 + rng.below(170) as u32 } else { 0 },
     savepoints: rng.chance(1, 3),
+    purge: !many && rng.chance(1, 5),
   };
   let mut ops = gen_ops(rng, &cfg, &p);
   if storage == StorageKind::Fs && !cfg.profile.compact_unsafe() && rng.chance(1, 3) {
